@@ -141,6 +141,7 @@ type ModelStats struct {
 	PrunesAdopted   int
 	EvictionsSeen   int
 	AmbiguousDepth  int
+	LiftedUnpruned  int
 	ExpiredPresents int
 	StalePresents   int
 	DequeueFromExp  int
@@ -468,7 +469,13 @@ func (m *Model) Enqueue(now time.Time, envs []queue.Envelope, batch bool, n int,
 		m.Stats.AmbiguousDepth++
 	}
 	active, queued := hi.active, hi.queued
+	// Histories in which operator requeue/resume lifted the active count above
+	// max_depth are outside C12. The lift is judged per picture: the store may not
+	// have pruned yet (hi), and if the count is above the limit there, what the
+	// call does is not constrained, even if a retention pass (lo) would have
+	// brought the count back to the limit.
 	lifted := m.Cfg.MaxDepth > 0 && lo.active > m.Cfg.MaxDepth
+	liftedHi := m.Cfg.MaxDepth > 0 && hi.active > m.Cfg.MaxDepth
 	needHi := m.depthNeed(hi.active, hi.activeDelivered, len(envs))
 	needLo := m.depthNeed(lo.active, lo.activeDelivered, len(envs))
 	fullHi, fullLo := false, false
@@ -487,7 +494,7 @@ func (m *Model) Enqueue(now time.Time, envs []queue.Envelope, batch bool, n int,
 		ok := false
 		switch cls {
 		case "full":
-			ok = fullHi || fullLo || lifted
+			ok = fullHi || fullLo || liftedHi
 			if !ok {
 				vs = append(vs, viol("C12.refused.notfull", "C12", "%s refused as full with active=%d max_depth=%d incoming=%d", op, active, m.Cfg.MaxDepth, len(envs)))
 			}
@@ -534,6 +541,18 @@ func (m *Model) Enqueue(now time.Time, envs []queue.Envelope, batch bool, n int,
 	} else if m.Cfg.DropPolicy == "drop_oldest" {
 		evictLo, evictHi = 0, needHi
 	}
+	if liftedHi && !lifted {
+		// above the limit only as long as nothing was pruned: the outcome of either
+		// picture is acceptable (hi: unconstrained; lo: the ordinary rule)
+		vs = dropRule(vs, "C12.admitted.full")
+		if m.Cfg.DropPolicy == "drop_oldest" {
+			evictLo = 0
+			if needHi > evictHi {
+				evictHi = needHi
+			}
+		}
+		m.Stats.LiftedUnpruned++
+	}
 	inBatch := map[string]bool{}
 	for _, e := range envs {
 		if e.ID != "" {
@@ -577,6 +596,16 @@ func (m *Model) Enqueue(now time.Time, envs []queue.Envelope, batch bool, n int,
 	}
 	m.evictMin, m.evictMax = evictLo, evictHi
 	return vs
+}
+
+func dropRule(vs []Violation, rule string) []Violation {
+	out := vs[:0]
+	for _, v := range vs {
+		if v.Rule != rule {
+			out = append(out, v)
+		}
+	}
+	return out
 }
 
 // amongOldestQueued: is x one of the k oldest queued messages (by insertion
